@@ -32,7 +32,12 @@ RULE = ('state = (table, format, dialect/encoder arguments, text encoding, targe
         'ragged / empty / over-long rows. A csv state is non-trivial when the written text holds a character '
         'special under that dialect (its delimiter, its quotechar, CR, LF), NUL, VT/FF/FS/GS/RS, a non-ASCII character, an empty '
         'or non-text cell or a row whose length differs from the first row; pickle/json: a non-str cell or a '
-        'ragged row; append: at least one appended row. Excluded: states on which csv.writer itself raises '
+        'ragged row; append: at least one appended row; target reuse: always. Append sequences are crossed with every '
+        'csv call form (34) and with hostile cell text (all strings <= 2 incl. backslash) in the written and the '
+        'appended table. Target reuse: the same source object / path is written by to* twice (first rendering '
+        'longer, equal, shorter than the second; all 16 ordered pairs of 4 tables), read back and appended to, '
+        'for csv, tsv, pickle, json (array, lines) and jsonarrays on every target kind - the second to* must '
+        'replace the first completely. Excluded: states on which csv.writer itself raises '
         'csv.Error (QUOTE_NONE without escapechar, lone empty field), numeric cells under QUOTE_NONNUMERIC (read '
         'back as float by the csv module), text not encodable in the chosen codec (ascii / locale default are '
         'run on the ASCII subset, latin-1 on code points < 256), QUOTE_STRINGS/QUOTE_NOTNULL (reader side differs between 3.12 and 3.13), '
@@ -60,13 +65,17 @@ CROSSING = {
              'kinds x 4 header-flag combinations]; line-boundary strings(<=2) x 12 placements: [34 forms on MemorySource/utf-8] + '
              '[2 default forms x 5 codecs x 4 kinds]; 2x2 grids: 2 default forms on MemorySource/utf-8; typed/ragged tables: '
              '34 forms x 4 flag combinations on MemorySource/utf-8; append: 39 sequences x all write_header flags x 2 '
-             'dialects x 7 codecs x 4 target kinds',
+             'dialects x 7 codecs x 4 target kinds + all 32 explicit dialects (utf-8); append with hostile strings(<=2) in the '
+             'written / appended table x 34 forms x 3 flag combinations on MemorySource and .gz; target reuse: 16 (prior, table) '
+             'pairs x [read back, 2 appended tables] x write_header x {3 dialects x 3 codecs | 3 pickle protocols | json array, '
+             'lines | jsonarrays with/without header} x 4 target kinds',
     'thorough': 'line-boundary strings(<=3) x 12 placements: [34 forms on MemorySource/utf-8]; line-boundary strings(<=2): as '
                 'hostile strings(<=2) below; hostile strings(<=3) x 12 placements: [34 forms on MemorySource/utf-8] + [2 default forms x 5 codecs x 4 kinds]; '
                 'strings(<=2) x 12 placements: [34 forms x 5 codecs x 4 kinds] + [2 default forms x 5 codecs x 4 kinds x 4 '
                 'flag combinations]; 2x2 grids: 34 forms on MemorySource/utf-8; typed/ragged tables: [34 forms x 4 kinds x 4 '
                 'flag combinations, utf-8] + [2 default forms x 4 other codecs x 4 kinds x 4 flag combinations]; append: 258 '
-                'sequences x all write_header flags x 4 dialects x 7 codecs x 4 target kinds',
+                'sequences x all write_header flags x 4 dialects x 7 codecs x 4 target kinds + all 32 explicit dialects (utf-8); '
+                'append with hostile strings(<=2) x 34 forms x 3 flag combinations x 4 target kinds; target reuse as in quick',
 }
 
 _G = {}
@@ -147,15 +156,16 @@ def typed_tables(seed):
 
 
 def append_tables(seed):
-    """Tables with 0, 1, 2 data rows whose rows are all distinguishable and carry hostile text."""
+    """Six tables (0, 1, 2+ data rows, twice) whose rows are all distinguishable and carry hostile text:
+    line-boundary characters, non-ASCII, delimiter / quote / LF, backslash + apostrophe + TAB (a row that
+    QUOTE_NONE accepts under the default delimiter), CR, None, numbers, an empty row."""
     a = alphabet(seed)
     na = a[8]
-    pool = [('r0\x0b', '1\x0c\x1c'), (na + ',"\x85', 'l1\nl2'), ("q'\\" + '\t', ''), ('\r\x1d\x1e', None), (7, 2.5), ()]
-    tabs = []
-    for start in (0, 3):
-        for n in (0, 1, 2):
-            tabs.append((('c%d' % start, 'd'),) + tuple(pool[start + i] for i in range(n)))
-    return tabs   # 6 tables: sizes 0,1,2 twice with different rows
+    first = [('r0\x0b', '1\x0c\x1c'), (na + ',"\x85', 'l1\nl2')]
+    second = [("q'\\" + '\t', '', 7), ('\r\x1d\x1e', None, 2.5), ()]
+    tabs = [(('c0', 'd'),) + tuple(first[:n]) for n in (0, 1, 2)]
+    tabs += [(('c3', 'd'),) + tuple(second[:n]) for n in (0, 1, 3)]
+    return tabs
 
 
 def pickle_cells(seed):
@@ -545,7 +555,8 @@ def bounds(tier, seed):
             'line_boundary_alphabet': 11, 'line_boundary_strings': len(_G['LB']),
             'placements_per_string': 12, 'grid_tables': 2 * 12 ** 4, 'typed_tables': len(_G['typed']),
             'pickle_tables': len(_G['pickle']), 'json_tables': len(_G['json']),
-            'append_base_tables': len(_G['app']),
+            'append_base_tables': len(_G['app']), 'reuse_tables': len(_G['reuse']),
+            'reuse_pairs': len(_G['reuse']) ** 2,
             'append_sequences': 3 * (1 + 3 + 9) if tier == 'quick' else 6 * (1 + 6 + 36),
             'csv_forms': len(FORMS), 'encodings': [str(e) for e in ENCS], 'append_encodings': [str(e) for e in APPEND_ENCS],
             'target_kinds': KINDS, 'header_flag_combinations': len(FLAGS), 'pickle_protocols': PROTOCOLS,
@@ -771,7 +782,7 @@ def _do_append(acc, fmt, seq, whs, kind, enc, d, pr, prior=None):
         what = 'append (to* + append*)'
         if prior is not None:
             case['prior'] = prior
-            what = 'target reuse (to*, to* [+ append*] on one target)'
+            what = 'append on a reused target (to*, to* [+ append*] on one target)'
         acc.violation('%s %s on %s | %s' % ('pickle' if fmt == 'pickle' else 'csv', what, _where(kind, enc), sig),
                       case, exp, obs,
                       '%sto%s then %d x append%s (write_header flags %r) on a %s target, encoding=%r, %r'
